@@ -567,21 +567,23 @@ func ruleW2(c *Ctx, id string) {
 			}
 			// arguments: same name (param), and for Add the same inum param and written offset
 			nameOK := false
-			for _, a := range callCommon(call).Args[1:] {
+			for _, a := range nonRecvArgs(call) {
 				if pm, isP := stripConv(a).(*ssa.Parameter); isP && pm == fn.Params[len(fn.Params)-1] {
 					nameOK = true
 				}
 			}
 			R.Check(nameOK, id, fmt.Sprintf("%s|%s uses the request's name", FuncName(fn), what), P.Pos(call.Pos()), "the cached name is the name written", "parameter", "cache and directory disagree on the name")
 			if upd == add {
-				a := callCommon(call).Args
+				a := append([]ssa.Value{nil}, nonRecvArgs(call)...) // (index 0: the receiver's place)
 				okArgs := len(a) == 4 && stripConv(a[3]) == offv
-				if pm, isP := stripConv(a[2]).(*ssa.Parameter); !isP || len(fn.Params) < 3 || pm != fn.Params[2] {
-					okArgs = false
-				}
-				// the same inum must be what the directory write received
-				if stripConv(argN(wc, 2)) != stripConv(a[2]) {
-					okArgs = false
+				if okArgs {
+					if pm, isP := stripConv(a[2]).(*ssa.Parameter); !isP || len(fn.Params) < 3 || pm != fn.Params[2] {
+						okArgs = false
+					}
+					// the same inum must be what the directory write received
+					if stripConv(argN(wc, 2)) != stripConv(a[2]) {
+						okArgs = false
+					}
 				}
 				R.Check(okArgs, id, FuncName(fn)+"|Add(name, inum, off) as written", P.Pos(call.Pos()), "the cache entry carries the inode number written and the offset returned", "value identity", "cache entry differs from the directory entry")
 			}
@@ -686,7 +688,7 @@ func ruleW2(c *Ctx, id string) {
 	for _, bs := range builds {
 		cf := bs.cb
 		for _, call := range P.CallsIn(cf, funcIs(add)) {
-			a := callCommon(call).Args
+			a := append([]ssa.Value{nil}, nonRecvArgs(call)...)
 			ok := len(a) == 4 && len(cf.Params) == 4 && a[1] == ssa.Value(cf.Params[1]) && a[2] == ssa.Value(cf.Params[2]) && a[3] == ssa.Value(cf.Params[3])
 			R.Check(ok, id, bs.key+"|adds what Apply enumerates", P.Pos(call.Pos()), "the cache builder passes (name, inum, off) through unchanged", "parameters passed through", "the rebuilt cache differs from the directory")
 		}
